@@ -1,6 +1,333 @@
+"""Translator mapping rules (C01 literals, C03 repeat/bounds, C19 alternative spellings).
+
+`translator._create_parsing_expression` is evaluated by the ast interpreter on stub syntax
+nodes, one representative per path of the mapping function (it branches only on node class,
+operator spelling and literal prefix/suffix flags); results are canonicalised to
+(class, attribute values) and compared."""
+import ast
+
+from .common import Finding, AnalysisError
+from . import load
+from . import metaeval as M
+from . import modroute
+
+N = modroute.node
+_world = {}
+
+
+def world():
+    if 'R' not in _world:
+        _world['R'] = modroute.Routes()
+    return _world['R']
+
+
+def create(tree):
+    R = world()
+    f = R.tr.env.get('_create_parsing_expression')
+    if f is None:
+        raise AnalysisError('anchor translator._create_parsing_expression vanished')
+    return R.it.call(f, [tree], {})
+
+
+def canon(v, bounds_as_text=True):
+    """canonical form of an expression object: (class name, sorted relevant attributes)"""
+    if isinstance(v, M.Obj):
+        skip = {'program_id', 'num_blocks', 'skip_ignored', '_resolved', 'is_local', 'needs_parse_info',
+                'extra_id', 'operand_str', 'row_strs'}
+        items = []
+        for k, x in sorted(v.d.items()):
+            if k in skip:
+                continue
+            if v.cls.name == 'List' and k in ('min_len', 'max_len') and x is not None and bounds_as_text:
+                x = str(x)         # int and str spellings of a bound are the same bound (C03 sibling rule)
+            items.append((k, canon(x, bounds_as_text)))
+        return (v.cls.name,) + tuple(items)
+    if isinstance(v, (list, tuple)):
+        return tuple(canon(x, bounds_as_text) for x in v)
+    OS = load.load_outsourcer()
+    if isinstance(v, OS.Code):
+        return ('Code', str(v))
+    return v
+
+
+def leaf(s):
+    return world().Str(s)
+
+
+def py(src):
+    return world().Py(src)
+
+
+def ref(name):
+    return world().Ref(name)
+
+
+def call(name, *args, **kw):
+    """syntax `Name(args, k=v)` after bottom-up transformation of its parts"""
+    R = world()
+    a = list(args) + [R.Kw(k, v) for k, v in kw.items()]
+    return N('Postfix', left=ref(name), operator=N('ArgList', args=a))
+
+
 def literal_rules(rep):
-    pass
-def bound_spellings(rep):
-    pass
+    """C01: string / regex / byte literals"""
+    rep.rule('MAP-literal', 'a string literal becomes Str(literal_eval(text)); with the i suffix '
+                            'Regex(re.escape(value), ignore_case=True); a regex literal keeps its body, b => bytes, '
+                            'i => ignore_case; a byte literal becomes Byte(value)')
+    import re
+    cases = [
+        ('"ab"', N('StringLiteral', value='"ab"'), ('Str', ('value', 'ab'))),
+        ("'a.b'", N('StringLiteral', value="'a.b'"), ('Str', ('value', 'a.b'))),
+        ('b"ab"', N('StringLiteral', value='b"ab"'), ('Str', ('value', b'ab'))),
+        ('"""a\\nb"""', N('StringLiteral', value='"""a\\nb"""'), ('Str', ('value', 'a\nb'))),
+        ('"a.b"i', N('StringLiteral', value='"a.b"i'), ('Regex', ('ignore_case', True), ('pattern', re.escape('a.b')))),
+        ("'A+'I", N('StringLiteral', value="'A+'I"), ('Regex', ('ignore_case', True), ('pattern', re.escape('A+')))),
+        ('/a+/', N('RegexLiteral', value='/a+/'), ('Regex', ('ignore_case', False), ('pattern', 'a+'))),
+        ('/a+/i', N('RegexLiteral', value='/a+/i'), ('Regex', ('ignore_case', True), ('pattern', 'a+'))),
+        ('b/a+/', N('RegexLiteral', value='b/a+/'), ('Regex', ('ignore_case', False), ('pattern', b'a+'))),
+        ('b/a+/I', N('RegexLiteral', value='b/a+/I'), ('Regex', ('ignore_case', True), ('pattern', b'a+'))),
+        ('/\\//', N('RegexLiteral', value='/\\//'), ('Regex', ('ignore_case', False), ('pattern', '\\/'))),
+        ('0x41', N('ByteLiteral', prefix='0x', value=0x41), ('Byte', ('value', 0x41))),
+    ]
+    for label, tree, want in cases:
+        try:
+            got = canon(create(tree))
+        except M.MetaRaise as e:
+            got = f'raises {e}'
+        rep.count('literal spellings mapped')
+        rep.oblige(got == want)
+        if got != want:
+            rep.add(Finding('MAP-literal', 'sourcer/translator.py:_create_parsing_expression', label,
+                            f'the literal {label} is translated to {got}, expected {want}',
+                            'sourcer/translator.py:_create_parsing_expression'))
+    rep.floor('literal spellings mapped', rep.instances.get('literal spellings mapped', 0), 12)
+
+
 def repeat_mapping(rep):
-    pass
+    """C03: `{a,b}` -> List(left, min_len=start, max_len=stop) incl. names and inline Python"""
+    rep.rule('MAP-repeat', 'e{a,b} becomes List(e, min_len=a, max_len=b); names and inline Python are kept as '
+                           'text read at parse time; `None` means no bound')
+    e = leaf('a')
+    cases = [
+        ('e{2}', py('2'), py('2'), ('2', '2')),                 # stop defaults to start in the metagrammar
+        ('e{2,3}', py('2'), py('3'), ('2', '3')),
+        ('e{2,}', py('2'), py('None'), ('2', None)),
+        ('e{,3}', None, py('3'), (None, '3')),
+        ('e{n}', ref('n'), ref('n'), ('n', 'n')),
+        ('e{m,n}', ref('m'), ref('n'), ('m', 'n')),
+        ('e{`k+1`}', py('k+1'), py('k+1'), ('k+1', 'k+1')),
+    ]
+    for label, start, stop, (wmin, wmax) in cases:
+        tree = N('Postfix', left=e, operator=N('Repeat', open='{', start=start, stop=stop, close='}'))
+        try:
+            got = create(tree)
+            ok = isinstance(got, M.Obj) and got.cls.name == 'List' and got.d.get('expr') is e \
+                and _s(got.d.get('min_len')) == wmin and _s(got.d.get('max_len')) == wmax
+            shown = canon(got)
+        except M.MetaRaise as ex:
+            ok, shown = False, f'raises {ex}'
+        rep.count('repeat spellings mapped')
+        rep.oblige(ok)
+        if not ok:
+            rep.add(Finding('MAP-repeat', 'sourcer/translator.py:_create_parsing_expression', label,
+                            f'{label} is translated to {shown}, expected List(e, min_len={wmin!r}, max_len={wmax!r})',
+                            'sourcer/translator.py:_create_parsing_expression'))
+    rep.floor('repeat spellings mapped', rep.instances.get('repeat spellings mapped', 0), 7)
+
+
+def _s(x):
+    return None if x is None else str(x)
+
+
+def bound_spellings(rep):
+    """C03 sibling rule: wherever List compares min_len / max_len with a literal, the int and the str
+    spelling of that literal are treated alike (the grammar syntax yields strings, the constructor
+    form yields ints)."""
+    rep.rule('BOUND-spellings', 'List treats the int and the str spelling of 0 / 1 alike in _compile, '
+                                'always_succeeds and can_partially_succeed')
+    from . import skeleton as SK
+    w = SK.World()
+    n = 0
+    for a, b in ((0, '0'), (1, '1'), (2, '2')):
+        for which in ('min_len', 'max_len'):
+            for other in (None, 3, '3'):
+                for st in ('AS', 'nCP', 'CP'):
+                    res = []
+                    for v in (a, b):
+                        kw = {which: v, ('max_len' if which == 'min_len' else 'min_len'): other}
+                        if which == 'max_len' and other is not None:
+                            kw['min_len'] = None
+                        ch = {'e': SK.A('e', st)}
+                        cfg = SK.Config('List', [ch['e']], kw, ch, label='List:spelling')
+                        try:
+                            bd = w.build(cfg)
+                            res.append((bd.AS, bd.CP, _norm_bounds(bd.src, v)))
+                        except SK.Rejected as ex:
+                            res.append(('rejected',))
+                    n += 1
+                    ok = res[0] == res[1]
+                    rep.oblige(ok)
+                    if not ok:
+                        d = 'flags' if res[0][:2] != res[1][:2] else 'emitted code'
+                        rep.add(Finding('BOUND-spellings', 'List', f'{which}={a!r}/{b!r}',
+                                        f'List({which}={a!r}) and List({which}={b!r}) differ in {d} (child {st}, other '
+                                        f'bound {other!r}): AS/CP {res[0][:2]} vs {res[1][:2]}',
+                                        'sourcer/expressions/list.py:List', {'int': res[0], 'str': res[1]}))
+    rep.count('bound spelling pairs compared', n)
+    rep.floor('bound spelling pairs compared', n, 50)
+
+
+def _norm_bounds(src, v):
+    # comments (which echo the spelling) are not code
+    return ast.dump(ast.parse(src))
+
+
+# ------------------------------------------------------------------ C19 alternative spellings
+def spelling_pairs(rep):
+    rep.rule('MAP-spellings', 'each documented pair of spellings is translated to the same expression object '
+                              '(class and attributes), by evaluating _create_parsing_expression on both syntax trees')
+    a, b, c = leaf('a'), leaf('b'), leaf('c')
+    T, F = py('True'), py('False')
+    pairs = [
+        ('e? / Opt(e)', N('Postfix', left=a, operator='?'), call('Opt', a)),
+        ('e* / List(e)', N('Postfix', left=a, operator='*'), call('List', a)),
+        ('e+ / Some(e)', N('Postfix', left=a, operator='+'), call('Some', a)),
+        ('a >> b / Right(a, b)', N('Infix', left=a, operator='>>', right=b), call('Right', a, b)),
+        ('a << b / Left(a, b)', N('Infix', left=a, operator='<<', right=b), call('Left', a, b)),
+        ('a | b / Choice(a, b)', N('Infix', left=a, operator='|', right=b), call('Choice', a, b)),
+        ('[a, b] / Seq(a, b)', N('ListLiteral', elements=[a, b]), call('Seq', a, b)),
+        ('a // b / Sep(a, b)', N('Infix', left=a, operator='//', right=b), call('Sep', a, b)),
+        ('a /? b / Sep(a, b, allow_trailer=True)', N('Infix', left=a, operator='/?', right=b),
+         call('Sep', a, b, allow_trailer=T)),
+        ('a // b / Sep(a, b, allow_trailer=False)', N('Infix', left=a, operator='//', right=b),
+         call('Sep', a, b, allow_trailer=F)),
+        ('e{2,3} / List(e, min_len=2, max_len=3)',
+         N('Postfix', left=a, operator=N('Repeat', open='{', start=py('2'), stop=py('3'), close='}')),
+         call('List', a, min_len=py('2'), max_len=py('3'))),
+        ('e{2,} / List(e, min_len=2)',
+         N('Postfix', left=a, operator=N('Repeat', open='{', start=py('2'), stop=py('None'), close='}')),
+         call('List', a, min_len=py('2'))),
+        ('e{,3} / List(e, max_len=3)',
+         N('Postfix', left=a, operator=N('Repeat', open='{', start=None, stop=py('3'), close='}')),
+         call('List', a, max_len=py('3'))),
+        ('a |> f / Apply', N('Infix', left=a, operator='|>', right=b), call('Apply', a, b)),
+        ('f <| a / Apply(apply_left)', N('Infix', left=a, operator='<|', right=b), call('Apply', a, b, apply_left=T)),
+        ('e where p / Where(e, p)', N('Infix', left=a, operator='where', right=b), call('Where', a, b)),
+    ]
+    for label, t1, t2 in pairs:
+        res = []
+        for t in (t1, t2):
+            try:
+                res.append(canon(create(t)))
+            except M.MetaRaise as e:
+                res.append(f'raises {e}')
+        rep.count('spelling pairs compared')
+        ok = res[0] == res[1] and not isinstance(res[0], str)
+        rep.oblige(ok)
+        if not ok:
+            rep.add(Finding('MAP-spellings', 'sourcer/translator.py:_create_parsing_expression', label.split(' / ')[0],
+                            f'{label}: the operator form gives {res[0]}, the constructor form gives {res[1]}',
+                            'sourcer/translator.py:_create_parsing_expression + sourcer/expressions/sugar.py'))
+    # choice flattening preserves order: (a | b) | c == Choice(a, b, c)
+    ab = create(N('Infix', left=a, operator='|', right=b))
+    abc = create(N('Infix', left=ab, operator='|', right=c))
+    rep.count('spelling pairs compared')
+    ok = isinstance(abc, M.Obj) and abc.cls.name == 'Choice' and list(abc.d.get('exprs')) == [a, b, c]
+    a_bc = create(N('Infix', left=a, operator='|', right=create(N('Infix', left=b, operator='|', right=c))))
+    ok = ok and list(a_bc.d.get('exprs')) == [a, b, c]
+    rep.oblige(ok)
+    if not ok:
+        rep.add(Finding('MAP-spellings', 'sourcer/translator.py:_create_parsing_expression', 'a | b | c',
+                        f'nested choices are not flattened in order: {canon(abc)}',
+                        'sourcer/translator.py:_create_parsing_expression'))
+    rep.floor('spelling pairs compared', rep.instances.get('spelling pairs compared', 0), 17)
+
+
+def precedence_rows(rep):
+    """the shipped parser's Expr operator table: precedence tags in the order grammar.txt states and the
+    property lists; all binary rows left-associative"""
+    rep.rule('MAP-precedence', 'metagrammar Expr table: postfix call/field < postfix ? * + {} < // /? < << >> < '
+                               '<| |> where < | ; binary rows left-associative')
+    tree = load.parse('sourcer/parser.py')
+    fns = load.functions_of(tree)
+    fn = fns.get('_try_Expr')
+    if fn is None:
+        raise AnalysisError('anchor _try_Expr vanished from sourcer/parser.py')
+    # rows are recovered from the comments the generator writes for every tagged row
+    # (`# <operators> |> `lambda x: (row, assoc, x)``), read with tokenize inside _try_Expr
+    import io
+    import re
+    import tokenize
+    src = load.read('sourcer/parser.py')
+    rows = []
+    seen = set()
+    for tok in tokenize.generate_tokens(io.StringIO(src).readline):
+        if tok.type == tokenize.COMMENT and fn.lineno <= tok.start[0] <= fn.end_lineno:
+            m = re.match(r"#\s*(.*?) \|> `lambda x: \(([\d, ]+), x\)`\s*$", tok.string)
+            if m and m.group(0) not in seen:
+                seen.add(m.group(0))
+                tag = tuple(int(x) for x in m.group(2).split(','))
+                ops = re.findall(r"'([^']+)'", m.group(1))
+                rows.append((tag, ops))
+    # the tag in the comment must be the tag in the code that follows
+    code_tags = set()
+    for n in ast.walk(fn):
+        if isinstance(n, ast.Lambda) and isinstance(n.body, ast.Tuple) and all(
+                isinstance(e, ast.Constant) for e in n.body.elts[:-1]):
+            code_tags.add(tuple(e.value for e in n.body.elts[:-1]))
+    for tag, ops in rows:
+        if tag not in code_tags:
+            raise AnalysisError(f'sourcer/parser.py: row comment with tag {tag} has no matching tagger lambda')
+    by_ops = {}
+    for tag, ops in rows:
+        for o in ops:
+            by_ops[o] = tag
+    rep.count('operator rows found in the shipped parser', len(rows))
+    rep.sample({'Expr rows (tag, operators)': [(list(t), o) for t, o in rows]})
+    groups = [['?', '*', '+'], ['//', '/?'], ['<<', '>>'], ['<|', '|>', 'where'], ['|']]
+    last = None
+    for g in groups:
+        tags = {by_ops.get(o) for o in g}
+        rep.oblige(len(tags) == 1 and None not in tags)
+        if len(tags) != 1 or None in tags:
+            rep.add(Finding('MAP-precedence', 'sourcer/parser.py:_try_Expr', '/'.join(g),
+                            f'operators {g} do not share one row of the Expr table (tags {tags})',
+                            'sourcer/parser.py:_try_Expr / grammar.txt Expr'))
+            continue
+        tag = tags.pop()
+        if last is not None and not tag[0] > last[0]:
+            rep.add(Finding('MAP-precedence', 'sourcer/parser.py:_try_Expr', '/'.join(g),
+                            f'row of {g} has precedence tag {tag[0]}, not after the previous group ({last[0]})',
+                            'sourcer/parser.py:_try_Expr / grammar.txt Expr'))
+        if len(tag) == 1 and g != groups[0]:
+            rep.add(Finding('MAP-precedence', 'sourcer/parser.py:_try_Expr', '/'.join(g),
+                            f'binary operators {g} are tagged as postfix', 'sourcer/parser.py:_try_Expr'))
+        if len(tag) == 2 and tag[1] != 1:
+            rep.add(Finding('MAP-precedence', 'sourcer/parser.py:_try_Expr', '/'.join(g),
+                            f'binary operators {g} have associativity id {tag[1]}; `left` is 1',
+                            'sourcer/parser.py:_try_Expr / grammar.txt Expr'))
+        last = tag
+    # the same order in grammar.txt (what regeneration would produce)
+    gt = load.read('grammar.txt')
+    i = gt.find('Expr = Atom between')
+    if i < 0:
+        raise AnalysisError('anchor `Expr = Atom between` vanished from grammar.txt')
+    block = gt[i:gt.index('}', i)]
+    order = []
+    for line in block.splitlines()[1:]:
+        if ':' in line:
+            kind, ops = line.split(':', 1)
+            order.append((kind.strip(), ops))
+    pos = {}
+    for idx, (kind, ops) in enumerate(order):
+        for o in ('"?"', '"//"', '"<<"', '"<|"', 'wrap("|")'):
+            if o in ops:
+                pos[o] = (idx, kind)
+    want = ['"?"', '"//"', '"<<"', '"<|"', 'wrap("|")']
+    idxs = [pos.get(o, (None, None))[0] for o in want]
+    ok = None not in idxs and idxs == sorted(idxs) and len(set(idxs)) == len(idxs) \
+        and all(pos[o][1] == 'left' for o in want[1:]) and pos['"?"'][1] == 'postfix'
+    rep.oblige(ok)
+    if not ok:
+        rep.add(Finding('MAP-precedence', 'grammar.txt:Expr', 'row-order',
+                        f'grammar.txt lists the Expr rows in the order {order}', 'grammar.txt Expr'))
